@@ -361,3 +361,94 @@ def seq_misc(which, v: int, typ: int, c0: int, c1: int):
 
 
 SCN["seq_misc"] = (["0 <= v <= 7 and 0 <= typ < 2"], 240, 600, ("quick", "thorough"))
+
+
+def par_wait_fail(which, c0: int, c1: int, c2: int, c3: int, c4: int, c5: int):
+    """Parallel without Catch: branch A = Task fa that fails, branch B = Wait 5 s. The Wait must be
+    cancelled; nothing may happen when its (cleared) timer would have fired."""
+    asl = {"StartAt": "P", "States": {"P": {"Type": "Parallel", "End": True, "Branches": [
+        {"StartAt": "A", "States": {"A": task("fa", End=True)}},
+        {"StartAt": "B", "States": {"B": {"Type": "Wait", "Seconds": 5, "Next": "B2"}, "B2": {"Type": "Pass", "End": True}}}]}}}
+    return s2.run_scenario(asl, {"x": 1}, [c0, c1, c2, c3, c4, c5], {"fa": worker(True, "Boom", "fa")}, which, "STANDARD",
+                           ("FAILED", "Boom"), extra_check=_fanout_checks(2, ("A", "B", "B2"), None, "ParallelStateFailed"))
+
+
+def par_branch_retry(which, bfail: bool, c0: int, c1: int, c2: int, c3: int, c4: int, c5: int, c6: int, c7: int):
+    """Branch A = Task fa with its own Retry (2 s interval) that fails once and then succeeds; branch B = Task fb
+    that (bfail) fails unhandled while A is waiting for its retry delay. A terminated branch must not be retried."""
+    asl = {"StartAt": "P", "States": {"P": {"Type": "Parallel", "End": True, "Branches": [
+        {"StartAt": "A", "States": {"A": task("fa", End=True, Retry=[{"ErrorEquals": ["Flaky"], "IntervalSeconds": 2, "MaxAttempts": 2, "BackoffRate": 1.0}])}},
+        {"StartAt": "B", "States": {"B": task("fb", End=True)}}]}}}
+    n = [0]
+
+    def wa(req):
+        n[0] += 1
+        return {"errorType": "Flaky", "errorMessage": "first"} if n[0] == 1 else {"ok": "fa"}
+    expect = ("FAILED", "Boom") if bfail else ("SUCCEEDED", [{"ok": "fa"}, {"ok": "fb", "in": {"x": 1}}])
+
+    def chk(run, inst, mon):
+        if bfail and n[0] > 1 and False:
+            return ""
+        return _fanout_checks(2, ("A", "B"), None, "ParallelStateFailed")(run, inst, mon)
+    return s2.run_scenario(asl, {"x": 1}, [c0, c1, c2, c3, c4, c5, c6, c7], {"fa": wa, "fb": worker(bfail, "Boom", "fb")},
+                           which, "STANDARD", expect, extra_check=chk, max_steps=120)
+
+
+def par_inner_catch(which, bfail: bool, c0: int, c1: int, c2: int, c3: int, c4: int, c5: int, c6: int, c7: int):
+    """Branch A: Task fa fails, is caught INSIDE the branch and goes on to a 5 s Wait; branch B: Task fb that
+    (bfail) fails unhandled afterwards. The caught branch's Wait must be cancelled with the rest."""
+    asl = {"StartAt": "P", "States": {"P": {"Type": "Parallel", "End": True, "Branches": [
+        {"StartAt": "A", "States": {"A": task("fa", Next="AZ", Catch=[{"ErrorEquals": ["States.ALL"], "Next": "AW"}]),
+                                    "AW": {"Type": "Wait", "Seconds": 5, "Next": "AZ"}, "AZ": {"Type": "Pass", "Result": "a", "End": True}}},
+        {"StartAt": "B", "States": {"B": {"Type": "Wait", "Seconds": 1, "Next": "B1"}, "B1": task("fb", End=True)}}]}}}
+    expect = ("FAILED", "Boom") if bfail else ("SUCCEEDED", ["a", {"ok": "fb", "in": {"x": 1}}])
+    return s2.run_scenario(asl, {"x": 1}, [c0, c1, c2, c3, c4, c5, c6, c7], {"fa": worker(True, "Oops", "fa"), "fb": worker(bfail, "Boom", "fb")},
+                           which, "STANDARD", expect, extra_check=_fanout_checks(2, ("A", "AW", "AZ", "B", "B1"), None, "ParallelStateFailed"), max_steps=120)
+
+
+SCN["par_wait_fail"] = ([], 300, 900, ("quick", "thorough"))
+SCN["par_branch_retry"] = ([], 600, 1800, ("quick", "thorough"))
+SCN["par_inner_catch"] = ([], 600, 1800, ("quick", "thorough"))
+
+
+def nested_par(which, fail: bool, c0: int, c1: int, c2: int, c3: int, c4: int, c5: int, c6: int, c7: int, c8: int, c9: int):
+    """Two levels of nesting: outer Parallel P = [inner Parallel Q = [Pass L0 -> Pass Leaf1, Task fq], Task fo].
+    fo fails iff `fail`; then nothing of the inner group may run on."""
+    inner = {"Type": "Parallel", "End": True, "Branches": [
+        {"StartAt": "L0", "States": {"L0": {"Type": "Pass", "Result": "l0", "Next": "Leaf1"}, "Leaf1": {"Type": "Pass", "Result": "l1", "End": True}}},
+        {"StartAt": "QT", "States": {"QT": task("fq", End=True)}}]}
+    asl = {"StartAt": "P", "States": {"P": {"Type": "Parallel", "End": True, "Branches": [
+        {"StartAt": "Q", "States": {"Q": inner}},
+        {"StartAt": "O", "States": {"O": task("fo", End=True)}}]}}}
+    expect = ("FAILED", "Boom") if fail else ("SUCCEEDED", [["l1", {"ok": "fq", "in": {"x": 1}}], {"ok": "fo", "in": {"x": 1}}])
+    return s2.run_scenario(asl, {"x": 1}, [c0, c1, c2, c3, c4, c5, c6, c7, c8, c9], {"fq": worker(False, "", "fq"), "fo": worker(fail, "Boom", "fo")},
+                           which, "STANDARD", expect, extra_check=_fanout_checks(2, ("L0", "Leaf1", "QT", "Q", "O"), None, "ParallelStateFailed"), max_steps=150)
+
+
+SCN["nested_par"] = ([], 900, 2400, ("quick", "thorough"))
+
+
+def poison_midrun(which, kind: int, c0: int, c1: int, c2: int, c3: int):
+    """A poison message (not JSON / JSON scalar / object without context / unknown machine) arrives on the
+    instance queue while a Task event of a healthy execution is parked unacknowledged. The poison must be
+    acknowledged by itself and the healthy execution must be unaffected."""
+    asl = {"StartAt": "T", "States": {"T": task("f", ResultPath="$.t", Next="Z"), "Z": {"Type": "Pass", "Result": 1, "ResultPath": "$.z", "End": True}}}
+    bodies = ["{not json", "5", '{"data": {}}', '{"data": {}, "context": {"StateMachine": {"Id": "arn:aws:states:local:0123456789:stateMachine:nope"}}}']
+    body = pick(bodies, kind)
+
+    def w(req):
+        m = sim.Message(body)
+        m.message_id = "poison"
+        sim.BROKER.publish("ev-i1", m)
+        return {"ok": 1}
+
+    def chk(run, inst, mon):
+        acks = [o for o in sim.BROKER.oplog if o[0] == "ack" and o[2] == "poison"]
+        if len(acks) != 1:
+            return "C18/C19 poison message acknowledged %d times" % len(acks)
+        return ""
+    return s2.run_scenario(asl, {"x": 1}, [c0, c1, c2, c3], {"f": w}, which, "STANDARD",
+                           ("SUCCEEDED", {"x": 1, "t": {"ok": 1}, "z": 1}), extra_check=chk)
+
+
+SCN["poison_midrun"] = (["0 <= kind < 4"], 300, 600, ("quick", "thorough"))
